@@ -128,7 +128,7 @@ impl RandomProvider for Chooser {
 // ---------------------------------------------------------------------------------
 
 const SCHEMA_T: &str = "type Query { i: Int i1: Int! s: String b: Boolean! f: Float id: ID! e: E es: [E] en: [E!]! \
-    t: T tn: T! ts: [T] tnn: [T!]! m: [[Int!]] n: [[T]!] p: [[T!]] q: [[Int]!] } \
+    t: T tn: T! ts: [T] tnn: [T!]! m: [[Int!]] n: [[T]!] p: [[T!]] q: [[Int]!] ln: [Int]! lt: [T]! lln: [[Int]]! } \
     type Mutation { set(v: Int): T bump: Int! } \
     type T { x: Int y: String! e: E! t: T xs: [Int] } \
     enum E { A B C }";
@@ -156,6 +156,7 @@ const WORKLOADS: &[(&str, &str, &str)] = &[
     // occurrence with a sub-field the others lack, in every order of arrival
     ("merge-across-fragments", SCHEMA_T, "{ t { x } ...F ... { t { e } } ...G } fragment F on Query { t { y } } fragment G on Query { t { t { x } } tn { x } }"),
     ("merge-fragment-first", SCHEMA_T, "{ ...F t { x } tn { e } ...G } fragment F on Query { t { y } tn { y } } fragment G on Query { tn { x } }"),
+    ("non-null-lists-of-nullable-items", SCHEMA_T, "{ ln lt { x } lln }"),
     ("mutation", SCHEMA_T, "mutation { set(v: 1) { x e } bump }"),
     ("interface-typename", SCHEMA_ABS, "{ node { __typename id ... on A { a } ... on B { b } } }"),
     (
